@@ -122,9 +122,22 @@ func c12Case(t *rapid.T, ev *evProp, realDKG bool) {
 	nontrivial := false
 	var hist []string
 	for _, r := range recvs {
-		d := ds[r]
-		accepted := map[int]bool{r: true} // its own partial was recorded by PartialSig()
+		// a fresh object for the receiver: it issues its own partial at a generated point of the
+		// delivery sequence (first, in the middle, or after everything it receives)
+		d, err := dss.NewDSS(suite, privs[r], pubs, longs[r], rands[r], msg, uint32(th))
+		if err != nil {
+			violationOrKnown(t, ev, key("new"), "NewDSS failed: %v\n%s", err, ctx)
+			return
+		}
+		accepted := map[int]bool{}
 		m := rapid.IntRange(0, n-1).Draw(t, fmt.Sprintf("nvalid%d", r))
+		signAt := rapid.IntRange(0, m).Draw(t, fmt.Sprintf("signat%d", r))
+		signOwn := func() {
+			if _, err := d.PartialSig(); err != nil {
+				violationOrKnown(t, ev, key("partialsig"), "PartialSig failed: %v\n%s", err, ctx)
+			}
+			accepted[r] = true
+		}
 		var others []int
 		for _, i := range rapid.Permutation(seqInts(n)).Draw(t, fmt.Sprintf("order%d", r)) {
 			if i != r {
@@ -132,12 +145,21 @@ func c12Case(t *rapid.T, ev *evProp, realDKG bool) {
 			}
 		}
 		others = others[:m]
-		h := fmt.Sprintf("recv%d:", r)
+		h := fmt.Sprintf("recv%d:(signs own at %d)", r, signAt)
+		if signAt > 0 {
+			nontrivial = true
+		}
 		for k, i := range others {
+			if k == signAt {
+				signOwn()
+			}
 			// optionally an invalid partial first
 			if rapid.IntRange(0, 2).Draw(t, fmt.Sprintf("inj%d.%d", r, k)) == 0 {
 				kind := rapid.SampledFrom([]string{"value+delta", "value+delta-resigned", "signed-by-other", "other-session", "other-session-relabelled", "duplicate", "index>=n", "foreign-index", "garbage-sig", "nil-sessionid"}).Draw(t, fmt.Sprintf("injkind%d.%d", r, k))
 				j := rapid.IntRange(0, n-1).Draw(t, fmt.Sprintf("injfrom%d.%d", r, k))
+				if j == r && !accepted[r] {
+					j = (r + 1) % n // nobody can hold r's partial before r has issued it
+				}
 				bad := &dss.PartialSig{Partial: &share.PriShare{I: ps[j].Partial.I, V: ps[j].Partial.V.Clone()},
 					SessionID: append([]byte(nil), ps[j].SessionID...), Signature: append([]byte(nil), ps[j].Signature...)}
 				resign := func(signer int) {
@@ -210,6 +232,12 @@ func c12Case(t *rapid.T, ev *evProp, realDKG bool) {
 			}
 			if want := len(accepted) >= th; d.EnoughPartialSig() != want {
 				violationOrKnown(t, ev, key("enough"), "participant %d: EnoughPartialSig=%v with %d distinct valid partials (t=%d)\n%s %s", r, d.EnoughPartialSig(), len(accepted), th, ctx, h)
+			}
+		}
+		if !accepted[r] {
+			signOwn() // signAt == number of deliveries: own partial last
+			if want := len(accepted) >= th; d.EnoughPartialSig() != want {
+				violationOrKnown(t, ev, key("enough"), "participant %d: EnoughPartialSig=%v with %d distinct valid partials incl. its own, issued last (t=%d)\n%s %s", r, d.EnoughPartialSig(), len(accepted), th, ctx, h)
 			}
 		}
 		hist = append(hist, h)
